@@ -5,6 +5,7 @@ package main
 import (
 	"bytes"
 	"fmt"
+	"github.com/Dash-Industry-Forum/livesim2/cmd/livesim2/app"
 	"sort"
 	"strconv"
 	"strings"
@@ -21,6 +22,36 @@ func withPeriods(cs string, pph int, cont bool) string {
 		return add
 	}
 	return cs + "," + add
+}
+
+// periodStartsAligned: for every k, k * pd seconds taken modulo the loop duration of the reference representation is the
+// start of one of its segments (checked over one full cycle of k).
+func periodStartsAligned(a *app.VerifAsset, pd int) bool {
+	ref := refRepOf(a)
+	if ref == nil || len(ref.Segments) == 0 {
+		return true
+	}
+	T := int64(ref.MediaTimescale)
+	first := int64(ref.Segments[0].StartTime)
+	L := int64(ref.Segments[len(ref.Segments)-1].EndTime) - first
+	if L <= 0 {
+		return false
+	}
+	starts := map[int64]bool{}
+	for _, sg := range ref.Segments {
+		starts[int64(sg.StartTime)-first] = true
+	}
+	per := int64(pd) * T
+	cycle := L / gcd64(per, L)
+	if cycle > int64(len(ref.Segments)) {
+		return false // more distinct period starts per loop than there are segment starts
+	}
+	for k := int64(0); k < cycle; k++ {
+		if !starts[(k*per)%L] {
+			return false
+		}
+	}
+	return true
 }
 
 func genC06(c *Ctx) {
@@ -63,14 +94,19 @@ func genC06(c *Ctx) {
 						now += int64(cf.startS) * 1000
 						line := fmt.Sprintf("mpd %s %s %s %d", a.AssetPath, cs, name, now)
 						out := c.Emit(line, true)
-						compatible := pd*1000%a.SegmentDurMS == 0
+						// the property's own statement, on the reference track's segment table: every period start (every multiple
+						// of the period duration, in every loop) is the start of a segment
+						aligned := periodStartsAligned(a, pd)
+						compatible := aligned && pd*1000%a.SegmentDurMS == 0
 						switch {
 						case strings.HasPrefix(out, "PANIC"):
 							c.Violate("periods-panic", "multi-period MPD request panics", []string{line}, nil)
-						case !compatible:
+						case !aligned:
 							if strings.HasPrefix(out, "dynamic") {
-								c.Violate("incompatible-period-accepted", fmt.Sprintf("period duration %d s is not a multiple of the segment duration %d ms but the MPD was served", pd, a.SegmentDurMS), []string{line}, nil)
+								c.Violate("incompatible-period-accepted", fmt.Sprintf("period duration %d s: the periods do not start at segment boundaries of the reference track (nominal segment duration %d ms) but the MPD was served", pd, a.SegmentDurMS), []string{line}, nil)
 							}
+						case !compatible:
+							// aligned, but not a multiple of the nominal (average) segment duration: livesim2 may refuse it
 						case !strings.HasPrefix(out, "dynamic"):
 							c.Violate("periods-not-served", "multi-period MPD request fails: "+out, []string{line}, nil)
 						default:
